@@ -158,8 +158,9 @@ RECURSIVE ContFails(_, _, _, _)
 ContFails(ms, cont, i, po) ==
     IF i > Len(cont) THEN {}
     ELSE LET c == cont[i]
-             \* after the clean-up (first continuation step) exactness is required again
-             f == OpFails(ms, c.op, c.res, c.obs, po, i > 1, FALSE)
+             \* after a clean-up among the earlier continuation steps exactness is required again (every standard
+             \* continuation starts with one; the "second session next to the leftovers" continuations have none)
+             f == OpFails(ms, c.op, c.res, c.obs, po, \E j \in 1..(i - 1) : cont[j].op.op = "cleanup", FALSE)
          IN  {"C03:cont-" \o x : x \in f} \cup ContFails(RunOp(ms, c.op), cont, i + 1, c.obs)
 
 ScanFails(o, dj, verify, p) ==
